@@ -9,6 +9,10 @@ CLAIMED = {
  'C19': ('proof', "All clauses proved for every state/seed on the Gallina term regenerated from SimpleRandom.h (T-gen): exact minstd transition, non-degeneracy for every number of draws, library seed forms, draw range in every binary format (Flocq), purity. Tied additionally by bit-exact correspondence of 2e5 (quick) / 2e6 (thorough) states and draws.", '§5 C19', 'theorems on the translated generator; bit-exact differential run'),
  'C18': ('proof', "Permutation, ordering, BothEnds-prefix and dispatch theorems for every vector and every tie-breaking allowed by std::sort's contract, on the BothEnds loop / key table / dispatch switches regenerated from the headers; a spec-side checker proved sound is run on the real outputs for all vectors of length <= 4 (quick) / <= 7 (thorough) over the tie alphabet plus samples.", '§5 C18', 'list-level theorems on translated loop and tables; verified checker on exhaustive enumeration'),
  'C12': ('proof', "Accept/reject boundary of every constructor, mode check, init check and wrapper check proved equal to the documented ranges on the translated checks (all n, nev, ncv); exhaustive grid n<=12 x (nev,ncv) in [-2,n+3]^2 on 11 solver classes + Davidson + SVD + wrappers against both the documented ranges and the generated model; leak clause partial (LeakSanitizer on rejected calls).", '§5 C12', 'theorems on translated argument checks; exhaustive grid correspondence'),
+ 'C05': ('proof', "Return value = |eigenvalues()| <= nev, info() <-> count = nev, at most maxit restarts, accessor column counts, counter reset and per-step operation counts are theorems on compute()/init()/accessor loops/factorize_from regenerated from the headers in world mode (kernel calls abstract), for every world meeting three kernel contracts, every oracle, every start state (= every init/compute history). The contracts are validated at every hook event of ~300 (quick) / ~4400 (thorough) histories on all 11 solver classes, the generated driver is replayed on the recorded kernel results, and the public-API predicate is evaluated on every observed call.", '§5 C05', 'theorems on translated drivers; trace refinement via hooks; API predicate on histories'),
+ 'C06': ('proof', "init() resets every piece of mutable state of solver and factorization (theorem on the member inventory regenerated from the class definitions), counters after init() independent of the previous state (generated init), no static state; fresh vs reused solver (after other runs, throwing calls, injected faults) compared bit for bit on all 11 classes, operator probed before/after.", '§5 C06', 'inventory theorems on translated class definitions; differential histories'),
+ 'C13': ('proof', "partial: restart sizes in 1..ncv-1, one application per breakdown, factorize_from cost in [to-from, 2(to-from)], and the work bound 2(ncv-1)(maxit+1) for compute() are theorems on the generated drivers for every oracle/world; the real nev_adjusted is compared exhaustively with the generated model (ncv <= 10 quick / 14 thorough). Memory safety / UB / NaN are runtime behaviour: structured hard inputs with Eigen assertions on (quick) and ASan+UBSan (thorough).", '§5 C13', 'theorems on translated index/counter code; exhaustive table; sanitizer search'),
+ 'C14': ('proof', "partial: the generated drivers propagate whatever exception a kernel raises unchanged, raise nothing themselves and the library has no handler (theorems, arbitrary world); recovery is exercised by injecting a fault at EVERY operator application index (A and B operators; pairs in thorough) and comparing the post-recovery init();compute() bit for bit with the fault-free run. Unwinding/leaks: ASan/LSan in the thorough tier.", '§5 C14', 'theorems on translated drivers; exhaustive fault injection'),
 }
 NA_REASON = "check under construction in this session (machinery not yet committed); not a claim that the technique cannot apply"
 props = [json.loads(l) for l in open('/verif/properties.jsonl')]
